@@ -482,7 +482,11 @@ def gen_table(rnd, spec, nrows=None, ragged=True):
     for _ in range(rnd.randint(0, 8) if nrows is None else nrows):
         row = [gen_cell(rnd, spec, f) for f in spec["fields"]]
         if ragged and spec["format"] != "fixed" and rnd.random() < 0.12:
-            row = row[: rnd.randint(0, n)] if rnd.random() < 0.5 else row + ["x"] * rnd.randint(1, 2)
+            # items that a message about the row will have to show: format directives, braces, quotes, backslashes
+            odd = ["x", "5%", "%s off", "100%d", "{0}", "%(a)s", "a'b", "\\", "%"]
+            row = row[: rnd.randint(0, n)] if rnd.random() < 0.5 else row + [rnd.choice(odd) for _ in range(rnd.randint(1, 2))]
+            if row and rnd.random() < 0.5:
+                row[rnd.randrange(len(row))] = rnd.choice(odd)
         if rows and rnd.random() < 0.25:
             row = list(rnd.choice(rows))  # duplicates for the checks
             if len(row) != n and spec["format"] == "fixed":
